@@ -4,6 +4,7 @@
 // the current pool size, numeric parameters are mapped from integers by fixed
 // formulas, so any sub-list of a program is again a valid program (shrinking).
 #pragma once
+#include <algorithm>
 #include <array>
 #include <functional>
 #include <map>
@@ -172,7 +173,7 @@ inline std::function<double(vec3)> sdf_kind(int64_t kind, int64_t k) {
 // orientation; kind 1 = staircase of M boxes touching along an edge with merged
 // vertices (every shared edge used by four triangles); kind 2 = chain of M boxes touching at one
 // corner with the shared vertex merged (pinched vertices in the input).
-inline MeshGL64 cell_mesh(int M, int K, int kind) {
+inline MeshGL64 cell_mesh(int M, int K, int kind, int64_t shuffle = 0) {
   MeshGL64 g;
   g.numProp = 3;
   std::map<std::array<int, 3>, uint64_t> index;
@@ -206,6 +207,25 @@ inline MeshGL64 cell_mesh(int M, int K, int kind) {
       case 1: box(c, c, 0, true, true); break;                                   // touching along an edge
       default: box(c, c, c, true, true); break;                                  // touching at one corner: pinched vertices
     }
+  }
+  if (shuffle % 4 != 0) {
+    // the triangle order of the input decides where the members of a group of duplicated halfedges
+    // sit relative to each other: 1 = reversed, 2 = seeded shuffle, 3 = all walls first
+    const size_t nt = g.triVerts.size() / 3;
+    std::vector<size_t> order(nt);
+    for (size_t i = 0; i < nt; i++) order[i] = i;
+    if (shuffle % 4 == 1) {
+      std::reverse(order.begin(), order.end());
+    } else if (shuffle % 4 == 2) {
+      Rng r((uint64_t)shuffle * 977 + 5);
+      for (size_t i = nt; i > 1; i--) std::swap(order[i - 1], order[r.below((uint32_t)i)]);
+    } else {
+      std::stable_partition(order.begin(), order.end(), [&](size_t t) { return (t / 2) % 6 < 2; });
+    }
+    std::vector<uint64_t> tv;
+    for (size_t t : order)
+      for (int k = 0; k < 3; k++) tv.push_back(g.triVerts[3 * t + k]);
+    g.triVerts = tv;
   }
   return g;
 }
@@ -264,7 +284,7 @@ inline bool exec(Env& e, const Op& op) {
                                 A(2) % 3 == 0 ? 360.0 : U(A(2), 30, 360)));
   } else if (n == "cellrow") {
     int M = 1 + (int)(((A(0) % 60000) + 60000) % 60000), K = 1 + (int)(((A(1) % 32) + 32) % 32);
-    e.pushM(Manifold(cell_mesh(M, K, (int)(A(2) % 3))));
+    e.pushM(Manifold(cell_mesh(M, K, (int)(A(2) % 3), A(3))));
   } else if (n == "hullpts") {
     Rng r((uint64_t)A(1) * 31 + 7);
     std::vector<vec3> pts;
@@ -475,6 +495,18 @@ inline bool exec(Env& e, const Op& op) {
   // ---------------- export / import
   else if (n == "rt64") {
     if (needM()) e.pushM(Manifold(e.m(A(0)).GetMeshGL64()));
+  } else if (n == "mergemesh") {
+    // export, forget the merge vectors, let MeshGL::Merge() re-derive them, import
+    if (needM()) {
+      MeshGL64 g = e.m(A(0)).GetMeshGL64();
+      MeshGL64 s;
+      s.numProp = g.numProp;
+      s.vertProperties = g.vertProperties;
+      s.triVerts = g.triVerts;
+      s.tolerance = g.tolerance;
+      s.Merge();
+      e.pushM(Manifold(s));
+    }
   } else if (n == "rt32") {
     if (needM()) e.pushM(Manifold(e.m(A(0)).GetMeshGL()));
   } else if (n == "rtobj") {
